@@ -9,7 +9,7 @@
 (* the only action that emits.  hist is a history variable that carries,   *)
 (* for every applied move, the observation the specification predicts.     *)
 (***************************************************************************)
-EXTENDS Alpha, Json
+EXTENDS Alpha, Json, CacheModel
 
 CONSTANTS MaxDepth,        \* number of applied moves per behaviour
           Moves(_, _),     \* Moves(heap, known): the sequence of moves offered in this state
@@ -190,5 +190,26 @@ SummarizeRows ==
 (* arrange permutes rows *)
 ArrangePermutes ==
     [][(Applied /\ pend.v = "arrange") => Len(Out.rows) = Len(In.rows)]_vars
+
+(* MetaAgree: the incremental metadata update transcribed from Cache.update (CacheModel.tla) yields the column *)
+(* list of the denotational table value, for every verb application of every behaviour                       *)
+RefName(t, r) == IF r.k = "col" THEN t.nm[r.id] ELSE r.n
+CmOf(t) == [CmSource(NamesOf(t)) EXCEPT !.part = [q \in DOMAIN t.part |-> t.nm[t.part[q]]]]
+CmApply(m, t, h) ==
+    CASE m.v = "select"    -> CmSelect(CmOf(t), [q \in DOMAIN m.cs |-> RefName(t, m.cs[q])])
+      [] m.v = "drop"      -> CmDrop(CmOf(t), [q \in DOMAIN m.cs |-> RefName(t, m.cs[q])])
+      [] m.v = "rename"    -> CmRename(CmOf(t), [q \in DOMAIN m.m |-> <<RefName(t, m.m[q].c), m.m[q].n>>])
+      [] m.v = "mutate"    -> CmMutate(CmOf(t), [q \in DOMAIN m.kv |-> m.kv[q].n])
+      [] m.v = "summarize" -> CmSummarize(CmOf(t), [q \in DOMAIN m.kv |-> m.kv[q].n])
+      [] m.v = "group_by"  -> CmGroupBy(CmOf(t), [q \in DOMAIN m.cs |-> RefName(t, m.cs[q])], m.add)
+      [] m.v = "ungroup"   -> CmUngroup(CmOf(t))
+      [] m.v = "union"     -> CmUnion(CmOf(t), CmOf(h[m.j]))
+      [] OTHER             -> CmOf(t)
+MetaAgree ==
+    [][(Applied /\ pend.v \in {"select", "rename", "mutate", "summarize", "group_by", "ungroup", "filter", "arrange", "slice_head", "union"}
+                /\ (pend.v = "select" => \A q \in DOMAIN pend.cs : pend.cs[q].k # "col" \/ pend.cs[q].id \in VisSet(In)))
+        => (NamesOf(Out) = CmApply(pend, In, heap).names
+            /\ [q \in DOMAIN Out.part |-> Out.nm[Out.part[q]]] = CmApply(pend, In, heap).part)]_vars
+
 
 =============================================================================
